@@ -61,7 +61,9 @@ def gen_cases(tier, seed):
             insize = [rnd.randint(1, 9) for _ in range(3)]
             storage = rnd.choice(["flat", "deep", "gzip", "flatgzip", "sharded"])
             cases.append({"code": code, "insize": insize, "chunk": cs,
-                          "channels": rnd.choice(["1", "1", "2", "3", "rgb"]),
+                          "channels": rnd.choice(["1", "1", "2", "3", "rgb", "rgb+1", "1+rgb",
+                                                  "rgb+rgb"]),
+                          "naming": rnd.choice(["padded", "padded", "plain", "mixed"]),
                           "dtype": rnd.choice(["uint8", "uint8", "uint16"]),
                           "fmt": rnd.choice(["png", "png", "tif"]),
                           "storage": storage,
@@ -71,6 +73,7 @@ def gen_cases(tier, seed):
     # directed: long stacks (more than 256 slices of tiny images), several slice groups
     for code in rnd.sample(CODES, 6 if tier == "quick" else 24):
         cases.append({"code": code, "insize": [3, 2, 300], "chunk": [64, 64, 64],
+                      "naming": rnd.choice(["padded", "plain", "plain"]),
                       "channels": "1", "dtype": "uint8", "fmt": "png", "storage": "flat",
                       "slice_rel": 3, "cli": False, "vseed": rnd.randrange(2 ** 32)})
     # directed: wide / tall slices (more than 256 pixels along one image axis)
@@ -123,9 +126,12 @@ def run_case(case):
     sharded = case["storage"] == "sharded"
     if sharded:
         cs = [cs[0]] * 3
-    rgb = case["channels"] == "rgb"
-    ndirs = 1 if rgb else int(case["channels"])
-    C = 3 if rgb else ndirs
+    layout = {"1": ["g"], "2": ["g", "g"], "3": ["g", "g", "g"], "rgb": ["rgb"],
+              "rgb+1": ["rgb", "g"], "1+rgb": ["g", "rgb"], "rgb+rgb": ["rgb", "rgb"]}[
+        case["channels"]]
+    rgb = "rgb" in layout
+    ndirs = len(layout)
+    C = sum(3 if k == "rgb" else 1 for k in layout)
     dt = np.dtype("uint8" if rgb else case["dtype"])
     fmt = "png" if (rgb or dt == np.uint8) else case["fmt"]
     g = np.random.default_rng(case["vseed"])
@@ -137,21 +143,35 @@ def run_case(case):
            "more_than_256_slices": int(ns > 256),
            "more_than_256_pixels": int(ncol > 256 or nr > 256),
            "reversed_slice_axis": int(code[2] in "LPI"), "rgb": int(rgb),
-           "multi_dir": int(ndirs > 1), "uint16": int(dt == np.uint16), "tiff": int(fmt == "tif"),
+           "multi_dir": int(ndirs > 1), "rgb_followed_by_another_directory": int(
+               "rgb" in layout[:-1]),
+           "unpadded_names_with_10_or_more_slices": int(
+               case.get("naming", "padded") != "padded" and ns >= 11), "uint16": int(dt == np.uint16), "tiff": int(fmt == "tif"),
            "cli_runs": 0, "storage": {case["storage"]: 1}}
     v = []
     try:
         dirs = []
-        for d in range(ndirs):
+        # file names: the documentation promises lexicographic order of the names
+        naming = case.get("naming", "padded")
+        if naming == "padded":
+            names = [f"slice_{i:04d}" for i in range(ns)]
+        elif naming == "plain":
+            names = sorted(f"slice_{i}" for i in range(ns))      # slice_10 < slice_2
+        else:
+            names = sorted([f"s{i}" for i in range(ns // 2)]
+                           + [f"S_{i:02d}x" for i in range(ns - ns // 2)])
+        ch0 = 0
+        for d, kind_ in enumerate(layout):
             p = os.path.join(top, f"in{d}")
             os.makedirs(p)
             dirs.append(p)
             for i in range(ns):
-                if rgb:
-                    img = PIL.Image.fromarray(np.moveaxis(stack[:, i], 0, -1))
+                if kind_ == "rgb":
+                    img = PIL.Image.fromarray(np.moveaxis(stack[ch0:ch0 + 3, i], 0, -1))
                 else:
-                    img = PIL.Image.fromarray(stack[d, i])
-                img.save(os.path.join(p, f"slice_{i:04d}.{fmt}"))
+                    img = PIL.Image.fromarray(stack[ch0, i])
+                img.save(os.path.join(p, f"{names[i]}.{fmt}"))
+            ch0 += 3 if kind_ == "rgb" else 1
         exp, size = expected(np, stack, code)
         dest = os.path.join(top, "out")
         os.makedirs(dest)
@@ -164,7 +184,8 @@ def run_case(case):
         with open(os.path.join(dest, "info"), "w") as f:
             json.dump(info, f)
         ctx = (f"code {code} stack(col,row,slice)=({ncol},{nr},{ns}) chunk {cs} channels "
-               f"{case['channels']} {dt.name} {fmt} {case['storage']}")
+               f"{case['channels']} names={case.get('naming', 'padded')} {dt.name} {fmt} "
+               f"{case['storage']}")
         opts = {"gzip": case["storage"] in ("gzip", "flatgzip"),
                 "flat": case["storage"] in ("flat", "flatgzip")}
         err = None
@@ -239,5 +260,8 @@ def gates(obs, tier):
         "all_storage_options": len(obs.get("storage", {})) == 5,
         "command_line_runs": obs.get("cli_runs", 0) > 10,
         "stacks_longer_than_256_slices": obs.get("more_than_256_slices", 0) > 0,
+        "rgb_directory_followed_by_another": obs.get(
+            "rgb_followed_by_another_directory", 0) > 0,
+        "unpadded_slice_names": obs.get("unpadded_names_with_10_or_more_slices", 0) > 0,
         "slices_wider_than_256_pixels": obs.get("more_than_256_pixels", 0) > 0,
     }
